@@ -408,12 +408,26 @@ func (sim *Sim) runFree(enc codec.Encoder) {
 		bg.Add(1)
 		go func() {
 			defer bg.Done()
+			pause := func() {
+				select {
+				case <-stop:
+				case <-time.After(time.Duration(cfg.ConsumerPause) * time.Millisecond):
+				}
+			}
+			if cfg.ConsumerPause > 0 {
+				pause() // the consumer is busy elsewhere for longer than the connection's idle limit
+			}
+			taken := 0
 			for {
 				select {
 				case <-stop:
 					return
 				case p := <-sim.inbound:
 					sim.noteInbound(p)
+					taken++
+					if cfg.ConsumerPause > 0 && taken == cfg.Icap+1 {
+						pause()
+					}
 				}
 			}
 		}()
@@ -613,7 +627,7 @@ func (sim *Sim) runFree(enc codec.Encoder) {
 	}
 	if cfg.WaitInput >= 1 {
 		// the peer finishes talking first (including a pause longer than the read time-out)
-		limit := time.Duration(cfg.ReadTimeout+6) * time.Second
+		limit := time.Duration(cfg.ReadTimeout+6)*time.Second + 2*time.Duration(cfg.ConsumerPause)*time.Millisecond
 		for t0 := time.Now(); int(atomic.LoadInt32(&sim.inputWritten)) < len(cfg.Input) && time.Since(t0) < limit; {
 			time.Sleep(200 * time.Microsecond)
 		}
